@@ -10,5 +10,5 @@ done
 git -C /repo checkout -- .
 # evidence files were rewritten by runs against a mutant: restore the committed ones
 git -C /verif checkout -- evidence 2>/dev/null
-rm -rf /verif/replays/*/E*-*.json.tmp 2>/dev/null
+git -C /verif clean -fdq replays/ 2>/dev/null
 true
